@@ -357,29 +357,241 @@ fn engineered_docs(r: &mut Rng) -> Vec<(&'static str, String)> {
     out
 }
 
+fn manifest_case(text: &str, cc: usize, mut tags: Vec<String>, w: &mut dyn std::io::Write) {
+    let nchars = text.chars().count();
+    let got = std::panic::catch_unwind(|| verif_hooks::build_chunk_manifest(text, cc));
+    let (out, viol, nontrivial) = match &got {
+        Err(_) => (panic_t(), Some("manifest-panic: build_chunk_manifest panicked".to_string()), true),
+        Ok(None) => {
+            tags.push("none".into());
+            let v = if cc > 0 && nchars > cc { Some(format!("manifest-none: no plan for {} characters with chunk size {}", nchars, cc)) } else { None };
+            (ok(T::none()), v, false)
+        }
+        Ok(Some((ranges, chunks))) => {
+            tags.push(format!("chunks{}", match ranges.len() { 0..=1 => "1", 2..=3 => "2-3", 4..=9 => "4-9", _ => "10+" }));
+            let mut v = partition_violation(text, ranges, chunks);
+            if v.is_none() { let slack = std::cmp::max(cc / 5, 32); if let Some((i, _)) = ranges.iter().enumerate().find(|(_, (a, b))| b - a > cc + slack) { v = Some(format!("partition-size: range {} is longer than chunk size + slack", i)); } }
+            (ok(T::some(T::Tup(vec![ranges_t(ranges), chunks_t(chunks)]))), v, ranges.len() >= 2)
+        }
+    };
+    // corpus texts hold no control characters but '\n': plain string literals parse 3x faster than hex
+    let plain = tags.iter().any(|t| t == "corpus") && text.chars().all(|c| c == '\n' || (c >= ' ' && !('\u{7f}'..='\u{9f}').contains(&c)));
+    let input = T::Tup(vec![if plain { text_s(text) } else { text_t(text) }, T::N(cc as u128)]);
+    emit(w, "manifest", &Case { input, output: out, violation: viol, nontrivial, tags, key: key_of(&[text.as_bytes(), &cc.to_le_bytes()]) });
+}
+
+// ------------------------------------------------------------------ fixed threshold corpus
+// Every size the planner compares against, met at the constant and constant +-1 measured in
+// CHARACTERS and, separately, in BYTES, with 1-, 2-, 3- and 4-byte code points, so that a
+// comparison made in the wrong unit changes the outcome of some case.  The corpus does not
+// depend on the seed and is emitted before the generated cases.
+#[derive(Clone, Copy, PartialEq)]
+enum Unit { Chars, Bytes }
+fn measure(s: &str, u: Unit) -> usize { match u { Unit::Chars => s.chars().count(), Unit::Bytes => s.len() } }
+
+/// code points that NFKC leaves alone
+const A1: &[char] = &['a', 'b', 'c', 'd', 'e', 'n', 'o', 's', 't', 'u'];
+const A2: &[char] = &['\u{e9}', '\u{f1}', '\u{fc}', '\u{f6}', '\u{e0}', '\u{e7}', '\u{df}', '\u{f8}', '\u{3b1}', '\u{436}'];
+const A3: &[char] = &['\u{6f22}', '\u{5b57}', '\u{6587}', '\u{672c}', '\u{65e5}', '\u{8a9e}', '\u{4e2d}', '\u{56fd}', '\u{3042}', '\u{30ab}'];
+const A4: &[char] = &['\u{1F600}', '\u{1F680}', '\u{1F30D}', '\u{1F389}', '\u{1F4DA}', '\u{1F431}', '\u{20000}', '\u{1D11E}'];
+const AMIX: &[char] = &['a', 'e', 't', '\u{e9}', '\u{fc}', '\u{6f22}', '\u{5b57}', '\u{1F600}', 'o', '\u{3042}'];
+fn alphabets() -> Vec<(&'static str, &'static [char])> { vec![("b1", A1), ("b2", A2), ("b3", A3), ("b4", A4), ("mix", AMIX)] }
+
+/// words over `alpha` with single ASCII separators, exactly `len` units long; unchanged by
+/// normalize_text (no leading/trailing/double whitespace).  style 0: words and spaces, some
+/// sentence ends; 1: lines (newline every ~40 characters); 2: no whitespace at all (CJK-like run
+/// with ideographic full stops); 3: words and spaces, no terminals.
+fn mb_text(r: &mut Rng, alpha: &[char], unit: Unit, len: usize, style: u64) -> String {
+    if len == 0 { return String::new(); }
+    let mut s = String::new(); let mut since_nl = 0usize;
+    while measure(&s, unit) < len + 8 {
+        let wl = r.range(1, 9);
+        for _ in 0..wl { s.push(*r.pick(alpha)); }
+        since_nl += wl as usize + 1;
+        match style {
+            0 => { if r.chance(1, 9) { s.push(*r.pick(TERMS)); } s.push(' '); }
+            1 => { if r.chance(1, 9) { s.push('.'); } if since_nl > 40 { s.push('\n'); since_nl = 0; } else { s.push(' '); } }
+            2 => { if r.chance(1, 9) { s.push('\u{3002}'); } }
+            _ => { s.push(' '); }
+        }
+    }
+    // cut back to at most len units, never ending in whitespace, then pad to exactly len
+    while measure(&s, unit) > len { s.pop(); }
+    while s.ends_with(' ') || s.ends_with('\n') { s.pop(); }
+    let filler = alpha[0];
+    loop {
+        let m = measure(&s, unit);
+        if m == len { break; }
+        let step = if unit == Unit::Bytes { filler.len_utf8() } else { 1 };
+        if m + step <= len { s.push(filler); } else { s.push('x'); }
+    }
+    s
+}
+
+/// a raw text that normalize_text maps back to `target`: doubled/tab whitespace, CRLF and blank
+/// lines, full-width punctuation (NFKC folds it), surrounding blank space
+fn denormalize(r: &mut Rng, target: &str) -> String {
+    let mut s = String::from(*r.pick(&["", "  ", "\n\n", "\t\r\n "]));
+    for c in target.chars() {
+        match c {
+            ' ' => s.push_str(*r.pick(&[" ", " ", "  ", "\t", " \t ", "\u{3000}", "\u{a0}"])),
+            '\n' => s.push_str(*r.pick(&["\n", "\n\n", "\r\n", " \n", "\r\n\r\n", "\n \n", "\r"])),
+            '!' => s.push(*r.pick(&['!', '\u{FF01}'])),
+            '?' => s.push(*r.pick(&['?', '\u{FF1F}'])),
+            '.' => s.push(*r.pick(&['.', '.', '\u{FF0E}'])),
+            'a' => s.push(*r.pick(&['a', 'a', '\u{FF41}'])),
+            _ => s.push(c),
+        }
+    }
+    s.push_str(*r.pick(&["", " ", "\n", "\r\n\t"]));
+    s
+}
+
+/// a markdown table whose raw text (header, separator, rows joined by '\n') measures exactly `target`
+fn table_exact(alpha: &[char], sep: &str, unit: Unit, target: usize) -> String {
+    let c = |i: usize, n: usize| -> String { (0..n).map(|k| alpha[(i + k) % alpha.len()]).collect() };
+    let mut v = vec![format!("| {} | {} |", c(0, 2), c(1, 2)), sep.to_string()];
+    let mut i = 0usize;
+    loop {
+        let row = format!("| {} | {} |", c(i, 3), c(i + 1, 3));
+        let m = measure(&v.join("\n"), unit) + 1 + measure(&row, unit);
+        // leave room for the shortest possible last row
+        let last_min = 1 + measure(&format!("| {} | {} |", c(i + 1, 1), c(i + 2, 3)), unit);
+        if m + last_min > target { break; }
+        v.push(row); i += 1;
+    }
+    // last row: first cell stretched to land exactly on target
+    let base = |cell: &str| { let mut w = v.clone(); w.push(format!("| {} | {} |", cell, c(i + 1, 3))); w.join("\n") };
+    let mut cell = c(i, 1);
+    loop {
+        let m = measure(&base(&cell), unit);
+        if m >= target { break; }
+        let f = alpha[0]; let step = if unit == Unit::Bytes { f.len_utf8() } else { 1 };
+        if m + step <= target { cell.push(f); } else { cell.push('x'); }
+    }
+    base(&cell)
+}
+
+fn threshold_corpus(w: &mut dyn std::io::Write) {
+    let mut r = Rng::new(0xC34_C0DE);
+    let r = &mut r;
+    let units = [(Unit::Chars, "chars"), (Unit::Bytes, "bytes")];
+    // ---- CHUNK_MIN_CHARS = 2400 : the "too short to chunk" gate of plan_text_chunks
+    for (an, alpha) in alphabets() {
+        for (unit, un) in units {
+            if an == "b1" && unit == Unit::Bytes { continue; } // same as chars for ASCII
+            for (k, len) in [2399usize, 2400, 2401].into_iter().enumerate() {
+                let style = (k as u64 + if unit == Unit::Bytes { 1 } else { 0 }) % 4;
+                let t = mb_text(r, alpha, unit, len, style);
+                plan_case(&t, vec!["corpus".into(), format!("gate-{}-{}-{}", un, len, an), format!("style{}", style)], w);
+                // the same normalized text reached from a non-normalized raw text
+                let raw = denormalize(r, &t);
+                let okn = normalize_text(&raw, usize::MAX).map(|n| n.text) == Some(t.clone());
+                plan_case(&raw, vec!["corpus".into(), format!("gate-{}-{}-{}-raw", un, len, an), if okn { "denorm-exact".into() } else { "denorm-differs".into() }], w);
+            }
+        }
+        if an == "b1" { continue; }
+        // characters below 2400 <= bytes: must stay unplanned although it is "long" in bytes;
+        // 1201..2399 characters would give two or more chunks if the gate let them through
+        for (k, chars) in [1201usize, 1500, 1800, 2399].into_iter().enumerate() {
+            if chars * alpha.iter().map(|c| c.len_utf8()).min().unwrap() < 2400 && an != "mix" { continue; }
+            let t = mb_text(r, alpha, Unit::Chars, chars, k as u64 % 4);
+            let straddles = t.len() >= 2400;
+            plan_case(&t, vec!["corpus".into(), format!("gate-chars{}-below-bytes-{}-{}", chars, if straddles { "above" } else { "below" }, an)], w);
+        }
+    }
+    // the demonstration class: ~1500 CJK characters in short lines separated by blank lines
+    for alpha in [A3, A4, A2] {
+        let lines: Vec<String> = (0..38).map(|_| { let n = r.range(30, 48); (0..n).map(|_| *r.pick(alpha)).collect::<String>() }).collect();
+        let raw = lines.join("\n\n");
+        plan_case(&raw, vec!["corpus".into(), format!("gate-blank-lines-{}b", alpha[0].len_utf8())], w);
+        let raw2 = lines.join("\u{3002}\r\n\r\n");
+        plan_case(&raw2, vec!["corpus".into(), format!("gate-crlf-lines-{}b", alpha[0].len_utf8())], w);
+    }
+    // structured path (table / list present) at the same gate
+    for (an, alpha) in alphabets() {
+        let tbl = format!("| {a}{b} | {b}{a} |\n|---|---|\n| {a} | {b} |\n| {b}{b} | {a}{a} |", a = alpha[0], b = alpha[1]);
+        let lst = format!("- {a}{b}{a}\n- {b}{a}", a = alpha[0], b = alpha[1]);
+        for (unit, un) in units {
+            if an == "b1" && unit == Unit::Bytes { continue; }
+            for len in [2399usize, 2400, 2401] {
+                let head = if len == 2400 { format!("{}\n{}", lst, tbl) } else { tbl.clone() };
+                let fill = len - measure(&head, unit) - 1;
+                let t = format!("{}\n{}", head, mb_text(r, alpha, unit, fill, 1));
+                let raw = if len == 2401 { denormalize(r, &t) } else { t.replace('\n', "\n\n") };
+                plan_case(&raw, vec!["corpus".into(), format!("sgate-{}-{}-{}", un, len, an)], w);
+            }
+        }
+        if an != "b1" {
+            let t = format!("{}\n\n{}\n\n{}", lst, tbl, mb_text(r, alpha, Unit::Chars, 1500, 1));
+            plan_case(&t, vec!["corpus".into(), format!("sgate-chars1500-{}", an)], w);
+        }
+    }
+    // ---- chunk size: total_chars <= chunk_chars, the window target + slack, in both units
+    for (an, alpha) in alphabets() {
+        if an == "b1" { continue; }
+        for cc in [8usize, 40, 200, 1200] {
+            let slack = std::cmp::max(cc / 5, 32);
+            for (unit, un) in units {
+                for d in [0usize, 1, 2] {
+                    // length cc-1, cc, cc+1 : None / None / Some
+                    let t = mb_text(r, alpha, unit, cc + d - 1, (d as u64 + cc as u64) % 4);
+                    manifest_case(&t, cc, vec!["corpus".into(), format!("size-{}-cc{}{:+}-{}", un, cc, d as i64 - 1, an)], w);
+                }
+                if cc == 1200 && an != "b3" { continue; }
+                for d in [0usize, 1, 2] {
+                    // the forward window ends exactly at / one before / one past the end of the text
+                    let t = mb_text(r, alpha, unit, cc + slack + d - 1, 2);
+                    manifest_case(&t, cc, vec!["corpus".into(), format!("window-{}-cc{}{:+}-{}", un, cc, d as i64 - 1, an)], w);
+                    // a single boundary as the last character of the window
+                    let mut v: Vec<char> = t.chars().collect();
+                    if unit == Unit::Chars && v.len() > cc + slack - 1 { v[cc + slack - 1] = *r.pick(&['\n', '.', ' ']); let t2: String = v.into_iter().collect(); manifest_case(&t2, cc, vec!["corpus".into(), format!("window-mark-cc{}{:+}-{}", cc, d as i64 - 1, an)], w); }
+                }
+            }
+        }
+    }
+    // ---- structural chunker, max_chars = 1200, in both units
+    let pad: String = (0..45).map(|i| format!("Padding sentence number {} with a few more words in it.", i)).collect::<Vec<_>>().join("\n");
+    let small_table = "| a | b |\n|---|---|\n| 1 | 2 |";
+    for (an, alpha) in [("b2", A2), ("b3", A3), ("b4", A4), ("mix", AMIX)] {
+        for (unit, un) in units {
+            // table.char_count() <= max_chars : whole (raw text kept) vs split (re-rendered).
+            // The separator is written "|----|----|" so that the two outcomes differ in text.
+            for len in [1199usize, 1200, 1201] {
+                if (an == "b2" || an == "b4") && len == 1199 { continue; }
+                let t = table_exact(alpha, "|----|----|", unit, len);
+                plan_case(&format!("{}\n\n{}", pad, t), vec!["corpus".into(), format!("stable-{}-{}-{}", un, len, an)], w);
+            }
+            if an == "b4" { continue; }
+            // paragraph: current (a + 9) + text > max_chars
+            for b in [591usize, 592] {
+                let doc = format!("# H\n{}\n# K\n{}\n\n{}\n\n{}", mb_text(r, alpha, unit, 600, 3), mb_text(r, alpha, unit, b, 3), small_table, pad);
+                plan_case(&doc, vec!["corpus".into(), format!("spara-{}-{}-{}", un, 609 + b, an)], w);
+            }
+            // list: current + list text > max_chars  (list text "- " + 7 units)
+            for a in [1191usize, 1192] {
+                let item = mb_text(r, alpha, unit, 7, 2);
+                let doc = format!("{}\n- {}\n\n{}\n\n{}", mb_text(r, alpha, unit, a, 3), item, small_table, pad);
+                plan_case(&doc, vec!["corpus".into(), format!("slist-{}-{}-{}", un, a + 9, an)], w);
+            }
+        }
+        // rows per chunk: header and cell sizes counted in characters
+        { let mut v = vec![format!("| {a}{b} | {b}{a} |", a = alpha[0], b = alpha[1]), "|---|---|".to_string()];
+          for i in 0..210 { v.push(format!("| {a}{b}{a} | {b}{a}{b} |", a = alpha[i % alpha.len()], b = alpha[(i + 1) % alpha.len()])); }
+          plan_case(&format!("{}\n\n{}", pad, v.join("\n")), vec!["corpus".into(), format!("srows-{}", an)], w); }
+        // one code block only: a single structural chunk, nothing is planned
+        { let code: Vec<String> = (0..70).map(|i| format!("let v{} = \"{}\";", i, mb_text(r, alpha, Unit::Chars, 24, 3))).collect();
+          plan_case(&format!("```\n{}\n```", code.join("\n")), vec!["corpus".into(), format!("ssingle-{}", an)], w); }
+    }
+}
+
 pub fn run(seed: u64, n: usize, w: &mut dyn std::io::Write) {
+    threshold_corpus(w);
     let mut r = Rng::new(seed ^ 0xC34);
     // ---------------- stream "manifest"
     for _ in 0..n {
-        let (text, cc, mut tags) = gen_manifest_case(&mut r);
-        let nchars = text.chars().count();
-        let got = std::panic::catch_unwind(|| verif_hooks::build_chunk_manifest(&text, cc));
-        let (out, viol, nontrivial) = match &got {
-            Err(_) => (panic_t(), Some("manifest-panic: build_chunk_manifest panicked".to_string()), true),
-            Ok(None) => {
-                tags.push("none".into());
-                let v = if cc > 0 && nchars > cc { Some(format!("manifest-none: no plan for {} characters with chunk size {}", nchars, cc)) } else { None };
-                (ok(T::none()), v, false)
-            }
-            Ok(Some((ranges, chunks))) => {
-                tags.push(format!("chunks{}", match ranges.len() { 0..=1 => "1", 2..=3 => "2-3", 4..=9 => "4-9", _ => "10+" }));
-                let mut v = partition_violation(&text, ranges, chunks);
-                if v.is_none() { let slack = std::cmp::max(cc / 5, 32); if let Some((i, _)) = ranges.iter().enumerate().find(|(_, (a, b))| b - a > cc + slack) { v = Some(format!("partition-size: range {} is longer than chunk size + slack", i)); } }
-                (ok(T::some(T::Tup(vec![ranges_t(ranges), chunks_t(chunks)]))), v, ranges.len() >= 2)
-            }
-        };
-        let input = T::Tup(vec![text_t(&text), T::N(cc as u128)]);
-        emit(w, "manifest", &Case { input, output: out, violation: viol, nontrivial, tags, key: key_of(&[text.as_bytes(), &cc.to_le_bytes()]) });
+        let (text, cc, tags) = gen_manifest_case(&mut r);
+        manifest_case(&text, cc, tags, w);
     }
     // ---------------- streams "plan" (unstructured or below threshold) and "structured"
     let n_plan = (n / 8).max(12);
